@@ -57,6 +57,10 @@ var reqSorts = [][]string{{"-_score", "_id"}, {"-_score", "_id"}, {"_id"}, {"-_i
 
 func GenReq(t *rapid.T, label string, g QGen, depth int, nums []float64) Req {
 	r := Req{Q: g.Tree(t, label+".q", depth)}
+	rare := rapid.IntRange(0, 5).Draw(t, label+".rareTerms") == 0
+	if rare {
+		r.Q = g.RareTerms(t, label+".rare")
+	}
 	r.QS = r.Q.String()
 	r.Sort = rapid.SampledFrom(reqSorts).Draw(t, label+".sort")
 	r.Size = 50
@@ -64,6 +68,13 @@ func GenReq(t *rapid.T, label string, g QGen, depth int, nums []float64) Req {
 	r.Locations = rapid.Bool().Draw(t, label+".locations")
 	r.Highlight = rapid.IntRange(0, 2).Draw(t, label+".highlight") == 0
 	r.ScoreNone = rapid.IntRange(0, 3).Draw(t, label+".scorenone") == 0
+	if rare {
+		// unadorned evaluation needs no scores and no locations
+		r.ScoreNone = rapid.IntRange(0, 3).Draw(t, label+".rareScored") != 0
+		if r.ScoreNone {
+			r.Locations, r.Highlight = false, false
+		}
+	}
 	nf := rapid.IntRange(0, 2).Draw(t, label+".nfacets")
 	for i := 0; i < nf; i++ {
 		f := GenFacet(t, fmt.Sprintf("%s.f%d", label, i), fmt.Sprintf("f%d", i), nums, c10Dates, func(FReq) int { return 3 })
@@ -90,7 +101,7 @@ func flattenOps(steps []c01Step) []Op {
 
 func genC05Layout(t *rapid.T, label string, steps []c01Step) c05Layout {
 	flat := flattenOps(steps)
-	kind := rapid.SampledFrom([]string{"mem-singletons", "mem-onebatch", "disk", "disk-merged", "disk-reopened", "mem-cuts", "mem-version", "disk-version", "mem-asis"}).Draw(t, label+".layout")
+	kind := rapid.SampledFrom([]string{"mem-singletons", "mem-onebatch", "disk", "disk-merged", "disk-reopened", "mem-cuts", "mem-version", "disk-version", "mem-asis", "disk-merge-mid"}).Draw(t, label+".layout")
 	l := c05Layout{Name: kind}
 	singles := func() []c01Step {
 		var out []c01Step
@@ -121,6 +132,21 @@ func genC05Layout(t *rapid.T, label string, steps []c01Step) c05Layout {
 	case "mem-version":
 		l.Cfg = Config{Engine: EngScorchMem, SegVersion: rapid.SampledFrom([]int{11, 12, 13, 14, 15, 16, 17}).Draw(t, label+".segv")}
 		l.Steps = steps
+	case "disk-merge-mid":
+		// a forced merge in the middle of the history, the rest left unmerged: a merged segment
+		// (with the encodings only merging produces, such as 1-hit postings lists) is followed
+		// by fresh segments
+		l.Cfg = Config{Engine: EngScorchDisk, MaxSegPerTier: 100, FloorSegSize: 1, SegPerMerge: 10}
+		base := steps
+		if rapid.Bool().Draw(t, label+".singles") {
+			base = singles()
+		}
+		cut := 0
+		if len(base) > 1 {
+			cut = rapid.IntRange(1, len(base)-1).Draw(t, label+".mergeAt")
+		}
+		l.Steps = append(append(append([]c01Step{}, base[:cut]...), c01Step{Kind: "merge"}), base[cut:]...)
+		l.Post = []string{"wait"}
 	case "disk", "disk-merged", "disk-reopened", "disk-version":
 		l.Cfg = Config{Engine: EngScorchDisk}
 		GenScorchDiskOpts(t, label, &l.Cfg)
@@ -195,7 +221,7 @@ func buildC05Layout(t *rapid.T, l c05Layout) *Corpus {
 
 func TestC05Layouts(t *testing.T) {
 	ev := Ev("C05")
-	ev.SetRule("rapid: one generated history (index/delete ops over 8 ids); 2-4 physical layouts of it drawn from {memory one-op-per-batch, memory single batch, memory as generated, memory random cuts, other zap version 11-17, disk with drawn persister/merge options after persist, after forced merge to one segment, after close/reopen, after background work settled}; " +
+	ev.SetRule("rapid: one generated history (index/delete ops over 8 ids); 2-4 physical layouts of it drawn from {memory one-op-per-batch, memory single batch, memory as generated, memory random cuts, other zap version 11-17, disk with drawn persister/merge options after persist, after forced merge to one segment, with a forced merge in the middle of the history and fresh segments after it, after close/reopen, after background work settled}; " +
 		"5 requests each from (query tree) x sort(score,_id,field+_id) x fields * x include locations x html highlight x 0-2 facets x score none; " +
 		"oracle = pairwise equality of normalised results with the first layout (ids, order, Total, MaxScore and scores at 1e-9 relative (1e-6 across zap versions), stored fields, term locations as sets, fragments of single-valued fields, facets); " +
 		"merge planner: mergeplan.Plan on 2-10 generated segments (sizes 1-12, some with deletions) under generated options (segments per tier 1-4, max segment size 2..3x the largest segment, tier growth 1-5, 2-8 segments per task, floor 1-8) must assign every segment to at most one task, name only offered segments and produce no empty task (non-trivial = >=2 tasks); forced merge under such options on 3-8 persisted segments must leave DocCount, match-all and term searches unchanged (non-trivial = fewer segments afterwards); " +
